@@ -23,7 +23,14 @@ def _cases(draw):
     base = gen.PROFILES["text" if which == 0 else "broad"]
     prof = dict(base, p_text_ref=0.6, p_table_list=0.1, p_hint=0.5, p_guidance=0.2, p_choice_label_ref=0.3, p_tag_names=0.12, p_default=0.3, p_osm=0.03,
                 p_extra_cols=0.5)
-    return {"form": gen.build_form(draw, prof)}
+    g = gen.G(draw, prof)
+    form = gen.build_form(draw, prof, g=g)
+    if form.get("lists") and g.p("_", 0.12):
+        ln = form["lists"][0]["name"]
+        qs = [n for n, _ in model.walk(form["nodes"]) if n["k"] == "q" and "label" in n["c"] and "calculation" not in n["c"] and "trigger" not in n["c"]]
+        for n in qs[: g.integer(1, 2)]:
+            n["c"]["label"] = f"A instance('{ln}')/root/item[name = 'c1']/label B instance('{ln}')/root/item[name = 'c2']/label C"
+    return {"form": form}
 
 
 def strategy(tier):
